@@ -25,7 +25,9 @@ type GenOpt struct {
 
 var mixedAlgs bool
 
-var CmdSegs = []string{"foo", "foobar", "fo", "bar", "a", "ab", "é", "λόγος", "λόγοσ", "σ", "ς"}
+// "/bar", "/a", "/foo": an EMPTY segment followed by a non-empty one ("/foo//bar" is a valid command, distinct
+// from and unrelated to "/foo/bar")
+var CmdSegs = []string{"foo", "foobar", "fo", "bar", "a", "ab", "é", "λόγος", "λόγοσ", "σ", "ς", "/bar", "/a", "/foo", "θ", "ϑ"}
 
 func drawPrin(t *rapid.T, label string) int {
 	if mixedAlgs {
